@@ -3,6 +3,7 @@ import Driver.OpsHof
 import Model.Pipeline
 import Model.Migration
 import Model.Generated.Phases
+import Model.BestQuery
 /-! driver ops for migration (C11), the evaluation phase (C19/C17) and phase lists (C05) -/
 namespace Bingo
 namespace Drv.OpsPipeline
@@ -49,6 +50,23 @@ def handle : List String → Option String
     let (out, n) := serialEval f cost (red == "1") p
     let (out2, n2) := multiprocessEval f cost (red == "1") p List.reverse
     some s!"ok {n} {n2} {if out == out2 then 1 else 0} ; {" ".intercalate (out.map fun i => s!"{i.genome}:{if i.flag then 1 else 0}:{OpsHof.showKey (i.fit.getD none)}")}"
+  | ["bestquery", ages, red, nanmod, pop] => do
+    -- bestquery ; age ; redundant ; nanmod ; members `genome:fit:flag` (fit `-` = None, `nan`, or an integer key)
+    -- fitness f g = NaN if nanmod > 0 and g % nanmod = 3, else (37 g) % 23
+    let age ← ages.toNat?; let nm ← nanmod.toNat?
+    let f : Nat → Key := fun g => if nm > 0 && g % nm == 3 then none else some (Int.ofNat ((37 * g) % 23))
+    let member? : String → Option Indiv := fun w =>
+      match w.splitOn ":" with
+      | [g, ft, fl] => do
+        let gn ← g.toNat?
+        let fit ← if ft = "-" then some none else (OpsHof.key? ft).map some
+        some ⟨gn, fit, fl == "1", 0⟩
+      | _ => none
+    let p ← (words pop).mapM member?
+    let showM : Indiv → String := fun i =>
+      s!"{i.genome}:{match i.fit with | none => "-" | some k => OpsHof.showKey k}:{if i.flag then 1 else 0}"
+    let (b, p') := BestQuery.islandBest f (fun _ => 1) (red == "1") age p
+    some s!"ok {match b with | none => "raise" | some i => showM i} ; {" ".intercalate (p'.map showM)}"
   | ["phases"] =>
     some ("ok " ++ " ; ".intercalate (algos.map fun (nm, ps) =>
       s!"{nm}: {", ".intercalate (ps.map phaseStr)} | fr={accepts .fr ps} ev={accepts .ev ps}"))
